@@ -421,7 +421,7 @@ def random_case(rng, op):
         cls = rng.choice(['int', 'int', 'str', 'tup', 'mixed'])
         keys = {'int': [0, 1, 2, 3, -1, 10], 'str': ['', 'a', 'b', 'ab', 'B', 'é'],
                 'tup': [(), (1,), (1, 2), (2,), (1, 2, 3), (0, 5)],
-                'mixed': [1, 2, 'a', None, (1, 2), ('a',)]}[cls]
+                'mixed': [1, 2, 'a', None, (1, 2)]}[cls]
     else:
         keys = rng.choice([KEYS, KEYS, KEYS[:2], KEYS_WIDE])
     unhashable = op != SORT and rng.random() < 0.04
